@@ -23,7 +23,9 @@ EXPLANATION = (
     "uses the inverse constructor (model_dump/model_validate, to_dict/from_dict); every key a model_serializer hook injects is routed back into the "
     "same private attribute by the class's __init__ chain; the exception dict's keys are the ones the validator reads. "
     "R2 name form: every function that writes `module + '.' + name` is paired with the resolver import_module_from_qualified_name; a writer that emits "
-    "__qualname__ (dotted for nested classes) needs a resolver that walks attributes, a single rsplit/getattr resolver accepts __name__ only. "
+    "__qualname__ (dotted for nested classes) needs a resolver that walks attributes, a single rsplit/getattr resolver accepts __name__ only; the resolver's depth is decided by "
+    "interpreting its AST on a three-level model program (pkg.mod.Top / Outer.Inner / Outer.Mid.Leaf; import_module and getattr are modelled). Once the resolver walks paths, a writer that "
+    "truncates to __name__ is the remaining reason a class nested in another class does not load (name-complete). "
     "R3 inventories: every Annotated alias with a PlainSerializer also has a PlainValidator (and vice versa); every Tick* model is a member of WorkflowTick and "
     "every result model of StepFunctionResult, with distinct Literal discriminators equal to their defaults; no persisted model field is annotated with a raw "
     "Event / Exception / type[...] instead of its Serializable alias. "
@@ -364,7 +366,7 @@ def run(chk) -> None:
             if decl is not None and "Any" in {n.id for n in ast.walk(decl.annotation) if isinstance(n, ast.Name)}:
                 enc = [c for c in ast.walk(val) if isinstance(c, ast.Call) and (last(call_name(c)) == "serialize_value" or _calls_one_deep(ev, c, "serialize_value"))]
                 chk.ob("C18.R4", f"{q}.{h.fn.name} injects `{key}` (from `self.{attr}: {ann_txt}`, arbitrary user values) through the tagging encoder serialize_value", bool(enc), m=ev, node=stmt, fn=h.fn,
-                       instance=f"inject:{q}.{key}", reason=f"raw injection `{ast.unparse(stmt)}`: the dump of the hook's dict flattens nested models / events inside it to plain dicts, and no reader can restore their class")
+                       instance=f"inject:{q}.{key}", detail="" if (isinstance(val, ast.Attribute) and dotted(val.value) == "self") else "via:" + ast.unparse(val)[:40], reason=f"raw injection `{ast.unparse(stmt)}`: the dump of the hook's dict flattens nested models / events inside it to plain dicts, and no reader can restore their class")
                 if enc:
                     inits = [f for r in [ref] + repo.mro_names(ref) if ":" in r and repo._has_cls(r) for f in repo.cls(r)[1].body if isinstance(f, FuncNode) and f.name in ("__init__", "model_post_init")]
                     dec = any(isinstance(c, ast.Call) and (last(call_name(c)) == "deserialize_value" or _calls_one_deep(ev, c, "deserialize_value")) for f in inits for c in ast.walk(f))
@@ -519,8 +521,9 @@ def run(chk) -> None:
     wvx = expand(wval, wd[0])
     if isinstance(wvx, ast.Call) and call_name(wvx) in ("str", "repr", "format") or isinstance(wvx, ast.JoinedStr):
         wform = "rendering"
+        render = call_name(wvx) if isinstance(wvx, ast.Call) else "f-string"
     elif any(isinstance(a, ast.Attribute) and a.attr == "args" for a in ast.walk(wvx)):
-        wform = "args"
+        wform, render = "args", "args"
     else:
         raise AnchorError(f"C18.R7: recorded message `{ast.unparse(wvx)}` not recognised")
     agree = (wform, rform) in (("args", "star-args"),)
@@ -535,7 +538,7 @@ def run(chk) -> None:
         if back != str(e0):
             demo.append(f"{cls_.__name__}{a!r}: message {str(e0)!r} -> {back!r}")
     chk.ob("C18.R7", f"exception payload form agrees: writer records `{mkeys[0]}` as {wform} (`{ast.unparse(wvx)}`), reader rebuilds with {rform} (`{ast.unparse(ctor)}`)", agree or verified, m=ev, node=ctor, fn=xv,
-           instance="exception-message-form", reason="str(cls(str(exc))) == str(exc) only for classes whose __str__ echoes a single argument; builtin counter-examples (evaluated on builtins by the checker): " + "; ".join(demo))
+           instance="exception-message-form", detail="" if (wform, rform, render) == ("rendering", "single-arg", "str") else f"{wform}:{render}/{rform}", reason="str(cls(str(exc))) == str(exc) only for classes whose __str__ echoes a single argument; builtin counter-examples (evaluated on builtins by the checker): " + "; ".join(demo))
     handlers = [h for t in ast.walk(xv) if isinstance(t, ast.Try) and any(x is ctor for st in t.body for x in ast.walk(st)) for h in t.handlers]
     names = {ast.unparse(e).split(".")[-1] for h in handlers if h.type is not None for e in (h.type.elts if isinstance(h.type, ast.Tuple) else [h.type])}
     if not names & {"TypeError", "Exception", "BaseException"}:
@@ -679,11 +682,18 @@ TWINS = [
     Twin("benign: .get for the message", _E, 'exc_message = data["exception_message"]', 'exc_message = data.get("exception_message", "")', None),
     Twin("benign: pydantic dict through a local", _S, '            return {\n                "__is_pydantic": True,', '            return {  # tagged\n                "__is_pydantic": True,', None),
     # R2 name forms
-    Twin("JsonSerializer writer switches to __qualname__ alone", _U, 'return value.__module__ + "." + value.__class__.__name__', 'return value.__module__ + "." + value.__class__.__qualname__', "C18.R2"),
-    Twin("envelope writer switches to __qualname__ alone", _V, 'return f"{event.__module__}.{event.__name__}"', 'return f"{event.__module__}.{event.__qualname__}"', "C18.R2"),
-    Twin("benign: concatenation instead of f-string", _V, 'return f"{event.__module__}.{event.__name__}"', 'return event.__module__ + "." + event.__name__', None),
+    Twin("attribute walk removed from the resolver (revert a9c0760)", _U,
+         "        parts = qualified_name.split(\".\")\n        for i in range(len(parts) - 2, 0, -1):\n            try:\n                obj = import_module(\".\".join(parts[:i]))\n            except ImportError:\n                continue\n            try:\n                for name in parts[i:]:\n                    obj = getattr(obj, name)\n                return obj\n            except AttributeError:\n                break\n",
+         "", "C18.R2"),
+    Twin("attribute walk stops after one level", _U, "                for name in parts[i:]:\n", "                for name in parts[i : i + 1]:\n", "C18.R2"),
+    Twin("walk result dropped, falls through to the error", _U, "                    obj = getattr(obj, name)\n                return obj\n", "                    obj = getattr(obj, name)\n", "C18.R2"),
+    Twin("exception writer truncates to __name__", _E, 'qualified_name = f"{exc_type.__module__}.{exc_type.__qualname__}"', 'qualified_name = f"{exc_type.__module__}.{exc_type.__name__}"', "C18.R2"),
+    Twin("event-type writer truncates to __name__", _E, 'return f"{event_type.__module__}.{event_type.__qualname__}"', 'return f"{event_type.__module__}.{event_type.__name__}"', "C18.R2"),
+    Twin("benign (repair): JsonSerializer writer uses __qualname__", _U, 'return value.__module__ + "." + value.__class__.__name__', 'return value.__module__ + "." + value.__class__.__qualname__', None),
+    Twin("benign (repair): envelope writer uses __qualname__", _V, 'return f"{event.__module__}.{event.__name__}"', 'return f"{event.__module__}.{event.__qualname__}"', None),
+    Twin("benign: concatenation instead of f-string", _E, 'return f"{event_type.__module__}.{event_type.__qualname__}"', 'return event_type.__module__ + "." + event_type.__qualname__', None),
     Twin("benign: maxsplit keyword", _U, 'module_path = qualified_name.rsplit(".", 1)', 'module_path = qualified_name.rsplit(".", maxsplit=1)', None),
-    Twin("benign (repair): resolver walks attribute paths", _U, '    except ImportError as e:\n        raise ImportError(f"Failed to import module {module_path[0]}: {e}")\n', _WALK, None),
+    Twin("benign: walk written as a while loop", _U, "                for name in parts[i:]:\n                    obj = getattr(obj, name)\n", "                rest = parts[i:]\n                while rest:\n                    obj = getattr(obj, rest.pop(0))\n", None),
     # R3 inventories
     Twin("tick class dropped from the union", _T, "    | TickIdleCheck\n    | TickIdleRelease,", "    | TickIdleCheck,", "C18.R3"),
     Twin("two ticks share a discriminator", _T, 'type: Literal["idle_release"] = "idle_release"', 'type: Literal["idle_check"] = "idle_check"', "C18.R3"),
@@ -704,8 +714,12 @@ TWINS = [
     # R6 override completeness
     Twin("another subclass adds its own hook", _E, "    attempts: int\n    elapsed_seconds: float\n\n\nclass StepFailedEvent(Event):",
          "    attempts: int\n    elapsed_seconds: float\n\n    @model_serializer(mode=\"wrap\")\n    def _dump(self, handler: Any) -> dict[str, Any]:\n        data = handler(self)\n        data[\"failed\"] = True\n        return data\n\n\nclass StepFailedEvent(Event):", "C18.R6"),
-    Twin("base hook gains a second container the override ignores", _E, "        if self._data:\n            data[\"_data\"] = self._data\n        return data", "        if self._data:\n            data[\"_data\"] = self._data\n        data[\"_extra\"] = self._extra\n        return data", "C18.R6"),
-    Twin("benign (repair): StopEvent hook delegates to the base hook", _E, "        data = handler(self)\n        # include _result in serialization for base StopEvent", "        data = super().custom_model_dump(handler)\n        # include _result in serialization for base StopEvent", None),
+    Twin("StopEvent hook starts from the bare handler again (revert ad91027)", _E, "        data = super().custom_model_dump(handler)\n", "        data = handler(self)\n", "C18.R6"),
+    Twin("base hook called but its dict discarded", _E, "        data = super().custom_model_dump(handler)\n", "        super().custom_model_dump(handler)\n        data = handler(self)\n", "C18.R6"),
+    Twin("base hook injects an attribute that is not a declared private attribute", _E, "        if self._data:\n            data[\"_data\"] = self._data\n        return data", "        if self._data:\n            data[\"_data\"] = self._data\n        data[\"_extra\"] = self._extra\n        return data", "C18.R1"),
+    Twin("benign: explicit base-class call", _E, "        data = super().custom_model_dump(handler)\n", "        data = DictLikeModel.custom_model_dump(self, handler)\n", None),
+    Twin("dynamic fields injected as a raw copy (another raw form of the known finding)", _E, 'data["_data"] = self._data', 'data["_data"] = dict(self._data)', "C18.R4"),
+    Twin("exception message written as repr (another failure of the known construct)", _E, '"exception_message": str(exc),', '"exception_message": repr(exc),', "C18.R7"),
     # R7 (fires on the unchanged tree; twins only check that refactors do not change the verdict)
     Twin("benign: message local renamed", _E, '    exc_message = data["exception_message"]\n    try:\n        exc_cls = import_module_from_qualified_name(data["exception_type"])\n        return exc_cls(exc_message)\n    except (ImportError, AttributeError, ValueError):\n        return Exception(exc_message)',
          '    msg = data["exception_message"]\n    try:\n        exc_cls = import_module_from_qualified_name(data["exception_type"])\n        return exc_cls(msg)\n    except (ImportError, AttributeError, ValueError):\n        return Exception(msg)', None),
